@@ -484,8 +484,69 @@ RULE += _R6["C02"]
 
 
 
+def execute_two_runs(ex: Any, spin_a: int, spin_b: int) -> tuple[Any, list[Any]]:
+    """two runs on one event loop (one runtime): run B's step sends two events ``spin_b`` loop iterations after its gate, run A's
+    only step returns its StopEvent ``spin_a`` iterations after its gate, and the two gates may be released in the same loop
+    iteration - over the spin grid the END of run A falls into every loop iteration around run B's ctx.send_event calls.
+    Every event run B's step sent must reach run B's accepting step exactly once, whatever other runs do meanwhile"""
+    import asyncio as _aio
+
+    from vmc.engine import BasicRuntime, EngineExec, MonRuntime, RunConfig, task_outcome
+
+    with EngineExec(ex, RunConfig(pair_release=True)) as e:
+        rt = MonRuntime(BasicRuntime())
+        got: list[int] = []
+
+        async def fan(self, ctx, ev, inv):  # noqa: ANN001
+            await gate("B.fan")
+            for _ in range(spin_b):
+                await _aio.sleep(0)
+            ctx.send_event(Work(uid=1))
+            ctx.send_event(Work(uid=2))
+            return None
+
+        async def sink(self, ctx, ev, inv):  # noqa: ANN001
+            got.append(ev.uid)
+            r = ctx.collect_events(ev, [Work] * 2)
+            if r is None:
+                return None
+            return StopEvent(result=sorted(x.uid for x in r))
+
+        async def only(self, ctx, ev, inv):  # noqa: ANN001
+            await gate("A.only")
+            for _ in range(spin_a):
+                await _aio.sleep(0)
+            return StopEvent(result="a")
+
+        cls_b = make_workflow("RunB", [make_step("fan", [StartEvent], [Work, None], fan), make_step("sink", [Work], [StopEvent, None], sink, num_workers=1)])
+        cls_a = make_workflow("RunA", [make_step("only", [StartEvent], [StopEvent], only)])
+        ha = cls_a(timeout=None, runtime=rt).run(run_id="ra")
+        hb = cls_b(timeout=None, runtime=rt).run(run_id="rb")
+        e.cfg.stop_when = lambda hh: ha.is_done() and hb.is_done()
+        e.drive()
+        v: list[Any] = []
+        out_a, out_b = task_outcome(ha._result_task), task_outcome(hb._result_task)
+        w = {"runs_on_one_loop": 2}
+        desc = f"spin_a={spin_a} spin_b={spin_b} schedule {ex.labels}"
+        if sorted(got) != [1, 2]:
+            v.append(("delivery_count", {**w, "want": 1, "got": ("0" if len(got) < 2 else ">1")},
+                      f"{desc}: run B's step sent Work#1 and Work#2; its accepting step was entered with {got} (run A ended {out_a[0]})"))
+        elif out_b[0] != "result" or getattr(out_b[1], "result", out_b[1]) != [1, 2]:
+            v.append(("run_did_not_complete", w, f"{desc}: run B ended {out_b}"))
+        if out_a[0] != "result":
+            v.append(("run_did_not_complete", w, f"{desc}: run A ended {out_a}"))
+        return {"got": sorted(got), "_metrics": {"max_concurrency": 2}}, v
+
+
 def programs(tier: str) -> list[Any]:
-    return to_programs(specs(tier), ORACLE)
+    from vmc.checks.common import Program
+
+    ps = to_programs(specs(tier), ORACLE)
+    for spin_a in ((0,) if tier == "quick" else (0, 1, 3)):
+        for spin_b in range(0, 14 if tier == "quick" else 20):
+            ps.append(Program(f"two_runs(spin_a={spin_a},spin_b={spin_b})", {"spin_a": spin_a, "spin_b": spin_b},
+                              (lambda ex, sa=spin_a, sb=spin_b: execute_two_runs(ex, sa, sb)), max_dev=3))
+    return ps
 
 
 def run(tier: str, seed: int) -> Any:
